@@ -61,6 +61,12 @@ def ingredients(rng, kbpk):
     ops["set-alg"] = ("set", (2, rng.choice("TDA0")))
     ops["set-bad"] = ("set", (1, "???"))
     ops["wrap"] = ("wrap", (rb(rng, rng.choice([0, 16, 24])), rng.choice([None, 0, 40])))
+    k2 = rb(rng, len(kbpk))
+    ops["setkbpk-other"] = ("setkbpk", k2)
+    ops["setkbpk-original"] = ("setkbpk", kbpk)
+    for ver in "BD":
+        h2 = make_header(rng, ver, rand_blocks(rng, 1))
+        ops[f"unwrap-other-key-{ver}"] = ("unwrap", tr31.wrap(k2, h2, rb(rng, 16)))
     ops["str"] = ("str", None)
     return ops
 
@@ -79,6 +85,8 @@ def apply(se, op):
         return se.set(*payload)
     if kind == "wrap":
         return se.wrap(*payload)
+    if kind == "setkbpk":
+        return se.setkbpk(payload)
     return se.str()
 
 
@@ -107,7 +115,7 @@ def run_sequence(c, rng, kbpk, ops, names):
         before = clone_header(se.kb.header)
         r = apply(se, ops[name])
         if k == len(names) - 1 or ops[name][0] in ("unwrap", "load"):
-            fresh_compare(c, se, kbpk, ops[name], r, before)
+            fresh_compare(c, se, se.kbpk, ops[name], r, before)
     c.desc["ops"] = names
 
 
@@ -124,7 +132,8 @@ def generate(rng, tier, seed):
     kbpk = rb(rng, 24)
     ops = ingredients(rng, kbpk)
     alpha = ["unwrap-ok-A", "unwrap-ok-B", "unwrap-ok-D", "unwrap-fail-blocks-mid-failure", "unwrap-fail-mac-mismatch", "unwrap-fail-reserved-then-mac-fail",
-             "unwrap-fail-bad-version", "load-ok", "load-fail-mid", "setblock-KS", "delblock-KS", "wrap"]
+             "unwrap-fail-bad-version", "load-ok", "load-fail-mid", "setblock-KS", "delblock-KS", "wrap",
+             "setkbpk-other", "unwrap-other-key-B", "unwrap-other-key-D"]
     L = 2 if tier == "quick" else 3
     for ln in range(1, L + 1):
         for names in itertools.product(alpha, repeat=ln):
